@@ -150,7 +150,7 @@ func (fl *c09Flow) tag(s kit.S, lhs []ast.Expr, call *ast.CallExpr) kit.S {
 				s = s.Del(k)
 			}
 		}
-		if o := kit.ObjOf(fl.info, l); o != nil {
+		if o := kit.ObjOf(fl.info, l); o != nil && c09Simple(fl.f, o) {
 			s = s.Set("bv:"+kit.VarID(o), rs[i])
 		}
 	}
@@ -218,6 +218,16 @@ func (fl *c09Flow) client() kit.Client {
 			if len(x.Rhs) == 1 {
 				if call, ok := ast.Unparen(x.Rhs[0]).(*ast.CallExpr); ok {
 					s = fl.tag(s, x.Lhs, call)
+				}
+			}
+			// plain copies carry the role along: `valid, uid = ok, id`
+			if len(x.Lhs) == len(x.Rhs) && (x.Tok == token.ASSIGN || x.Tok == token.DEFINE) {
+				for i, l := range x.Lhs {
+					if r := fl.roleOf(x.Rhs[i], s); r != "" {
+						if o := kit.ObjOf(fl.info, l); o != nil && c09Simple(fl.f, o) {
+							s = s.Set("bv:"+kit.VarID(o), r)
+						}
+					}
 				}
 			}
 		case *ast.ValueSpec:
@@ -359,6 +369,17 @@ type c09Anchors struct {
 	credClients map[types.Object]bool // client functions that send the credential-check request
 	credFn      *kit.Func             // store: the credential check
 	tokenField  *types.Var            // api: handler field compared with the Authorization header
+
+	fetchFn, listFn, walkFn  *kit.Func // client: node fetch, user listing, its recursive closure
+	parentIdx, idIdx, delIdx int       // parameter positions of fetchFn
+	listCalls                []*c09ListCall
+}
+
+// c09ListCall is a call of the user listing found in a gated handler.
+type c09ListCall struct {
+	f    *kit.Func
+	call *ast.CallExpr
+	bad  string
 }
 
 func c09IsJWT(obj types.Object, names ...string) bool {
@@ -552,6 +573,8 @@ func newC09Anchors(c *kit.Ctx) *c09Anchors {
 	if a.credFn == nil {
 		c.Fatalf("credential check (function of package store reading the user's e-mail or password field) not found")
 	}
+
+	c09ListAnchors(c, a)
 
 	// ---- api: handler entries and bus reachability
 	a.entries = c09HandlerEntries(c, a)
@@ -1112,7 +1135,7 @@ func (a *c09Anchors) runGate(f *kit.Func) *c09Gate {
 	fl.roles = func(call *ast.CallExpr) []string {
 		switch {
 		case isValidatorCall(call):
-			return []string{"valid"}
+			return []string{"valid", "uid"}
 		case isAuthHeaderGet(call):
 			return []string{"hdr"}
 		}
@@ -1146,9 +1169,23 @@ func (a *c09Anchors) runGate(f *kit.Func) *c09Gate {
 			g.unauth[n] = &c09SinkHit{n, what, s}
 		}
 	}
+	listSeen := map[*ast.CallExpr]*c09ListCall{}
 	fl.onCall = func(call *ast.CallExpr, n ast.Node, s kit.S) []kit.S {
 		if w := a.sinkAt(f, call); w != "" {
 			note(call, w, s)
+		}
+		// whose nodes are listed: the user id the validator returned
+		if a.listFn != nil && f.CalleeFunc(call) == a.listFn && len(call.Args) == 2 {
+			lc := listSeen[call]
+			if lc == nil {
+				lc = &c09ListCall{f: f, call: call}
+				listSeen[call] = lc
+				a.listCalls = append(a.listCalls, lc)
+			}
+			if fl.roleOf(call.Args[1], s) != "uid" && lc.bad == "" {
+				lc.bad = fmt.Sprintf("%s at %s lists the nodes of `%s`, which on some path is not the user id returned by the JWT validator: a valid user can read another user's subtrees",
+					a.listFn.Name, f.At(call), f.Str(call.Args[1]))
+			}
 		}
 		// status 401 written to this request's ResponseWriter
 		if resP != nil {
@@ -1231,6 +1268,19 @@ func c09SinkKey(g *c09Gate, n ast.Node) string {
 func c09Handlers(c *kit.Ctx, a *c09Anchors) {
 	r1 := c.Rule("R1", "auth typestate before every bus operation", 10)
 	r2 := c.Rule("R2", "handler inventory: only gated and login handlers reach the bus", 5)
+	// functions from which an authentication test (validator call, read of the
+	// Authorization header) is reachable
+	gateHelpers := c09Reach(c, "api", func(f *kit.Func, call *ast.CallExpr) bool {
+		if a.validObjs[kit.Callee(f.Info(), call)] {
+			return true
+		}
+		if kit.CallIs(f.Info(), call, c09HTTP+".(Header).Get") && len(call.Args) == 1 {
+			if k, ok := kit.ConstString(f.Info(), call.Args[0]); ok && strings.EqualFold(k, "Authorization") {
+				return true
+			}
+		}
+		return false
+	}, a)
 	gated := 0
 	for _, f := range a.entries {
 		c.Analysed(f)
@@ -1251,10 +1301,21 @@ func c09Handlers(c *kit.Ctx, a *c09Anchors) {
 			continue
 		}
 		g := a.runGate(f)
+		if !g.hasGate && gateHelpers[f] {
+			// the gate seems to live in a helper: not an accepted idiom, but not a proven hole either
+			o2.Undecided("handler %s reaches the bus and its authentication test is not in the handler body but in a function it calls: gate helpers are not analysed", f.Name)
+			continue
+		}
 		if !g.hasGate {
 			var names []string
 			for _, n := range g.sinks {
-				names = append(names, fmt.Sprintf("%s at %s", g.sinkName[n], f.At(n)))
+				if !strings.HasPrefix(g.sinkName[n], "dynamic call") {
+					names = append(names, fmt.Sprintf("%s at %s", g.sinkName[n], f.At(n)))
+				}
+			}
+			if len(names) == 0 {
+				o2.Undecided("handler %s calls func-valued variables whose callees are unknown and has no authentication gate", f.Name)
+				continue
 			}
 			o2.Violation("handler %s reaches the bus (%s) and has no authentication gate (neither a comparison of the Authorization header with the configured token nor a JWT validator call)",
 				f.Name, strings.Join(names, "; "))
@@ -1271,6 +1332,8 @@ func c09Handlers(c *kit.Ctx, a *c09Anchors) {
 		for _, n := range g.sinks {
 			o := r1.Ob(f, n, c09SinkKey(g, n), "reached only on the equal edge of `Authorization header == configured token` or the true edge of the JWT validator's result")
 			switch {
+			case g.unauth[n] != nil && strings.HasPrefix(g.sinkName[n], "dynamic call"):
+				o.Undecided("%s at %s is reachable unauthenticated and its callee is unknown", g.sinkName[n], f.At(n))
 			case g.unauth[n] != nil:
 				h := g.unauth[n]
 				o.Violation("%s at %s is reachable unauthenticated: header comparison %s, validator result %s on that path",
